@@ -1,3 +1,4 @@
+mod btree;
 mod dump;
 mod obs;
 mod storage;
@@ -72,6 +73,13 @@ fn main() {
                 json!({"histories": s.histories, "ops": s.ops, "dumps": s.dumps, "images": s.images,
                        "images_distinct": s.images_distinct, "faults": s.faults, "io_steps": s.io_steps})
             );
+        }
+        "btree" => {
+            let seqs = read_ndjson(a.get("in").expect("--in"));
+            let out = std::fs::File::create(a.get("out").expect("--out")).unwrap();
+            let mut w = BufWriter::new(out);
+            let stats = btree::run(&seqs, &mut w, &scratch);
+            println!("{stats}");
         }
         other => {
             eprintln!("unknown subcommand {other}");
